@@ -26,8 +26,10 @@ let transcript (ops : M.top list) : M.n list =
   if n > !max_chain then max_chain := n;
   S.transcript ops
 
-let fuel () = C.int_of_n (let rec nat_to_n (k : M.nat) (acc : int) = match k with M.O -> acc | M.S r -> nat_to_n r (acc + 1) in
-                          C.n_of_int (nat_to_n M.h_fuel 0))
+(* the model's fuel (a unary nat) as an int *)
+let fuel () : int =
+  let rec go (k : M.nat) (acc : int) = match k with M.O -> acc | M.S r -> go r (acc + 1) in
+  go M.h_fuel 0
 
 let init () =
   (* recv_new sid bits tas ros -> msg1 maxchain *)
